@@ -6,6 +6,7 @@ import glob, json, os, shutil, subprocess, sys, tempfile
 from concurrent.futures import ProcessPoolExecutor
 sys.path.insert(0, '/verif')
 PIDS = [f'C{i:02d}' for i in range(1, 21)]
+PREFIX = next((a.split('=', 1)[1] for a in sys.argv if a.startswith('--prefix=')), '')
 
 
 def work(job):
@@ -55,7 +56,7 @@ if __name__ == '__main__':
         n_alarm += bool(alarms)
         print(f'{name:10s} {st:5s} tests={t} alarms={alarms if alarms else "-"}')
         if '--store' in sys.argv and st == 'ok' and not alarms and (t is None or '145 passed' in t):
-            dst = f'/verif/seeded_benign/{name}'
+            dst = f'/verif/seeded_benign/{PREFIX}{name}'
             os.makedirs(dst, exist_ok=True)
             shutil.copy(patch, dst)
             meta = os.path.join(os.path.dirname(patch), 'meta.json')
